@@ -101,13 +101,19 @@ def modelNormal (cs : List (Chunk Line)) : String :=
   let rdS := match rd with | none => "err" | some p => fmtChunks p.chunks
   s!"text={hexText text} rd={rdS} re={reText text (rd.map fun p => render (normal p.chunks))}"
 
-def modelUnified (s : S14) (cs : List (Chunk Line)) : String :=
+def modelUnified (s : S14) (mode : String) (cs : List (Chunk Line)) : String :=
   let text := render (unified cs s.fi)
   let rd := readUnified parseTimeId (readLines text)
   let rdS := match rd with | none => "err" | some p => fmtChunks p.chunks
   let fiS := match rd with | none => "-" | some p => fmtFi p.fileInfo
-  let u := unified cs (some (s.fi.getD ⟨[], [], none, none⟩))
-  let git := readGitPatch parseTimeId (readLines (render (gitHdr1 ++ u ++ gitHdr2 ++ u)))
+  let gfi := some (s.fi.getD ⟨[], [], none, none⟩)
+  let u := unified cs gfi
+  -- second file of the git patch: the reverse diff (Right → Left) through the same pipeline
+  let cs2 := match chunksFor { s with left := s.right, right := s.left } mode with
+    | .ok c => c
+    | .error _ => []
+  let u2 := unified cs2 gfi
+  let git := readGitPatch parseTimeId (readLines (render (gitHdr1 ++ u ++ gitHdr2 ++ u2)))
   s!"text={hexText text} rd={rdS} re={reText text (rd.map fun p => render (unified p.chunks p.fileInfo))} fi={fiS} git={fmtPatches git}"
 
 def modelContext (s : S14) (cs : List (Chunk Line)) : String :=
@@ -215,11 +221,21 @@ def specUnified (s : S14) (impl : String) : String × Bool :=
       (rd == "err" || obsField impl "re" == "same", f5, "re-formatting the parsed unified patch differs from the text"),
       (rd == "err" || parseFi (obsField impl "fi") == some wantFi, false, "file names / timestamps of the header do not come back"),
       (obsField impl "git" != "err" &&
-          ((obsField impl "git").splitOn ";").all (fun p =>
-            match p.splitOn ":[" with
-            | [f, c] => parseFi f == some (some gitWant) && ("[" ++ c) == rd
-            | _ => false) && ((obsField impl "git").splitOn ";").length == 2, false,
-        "ReadGitPatch does not return the same chunks and names for each git-wrapped copy"),
+          (match (obsField impl "git").splitOn ";" with
+           | [p1, p2] =>
+             (match p1.splitOn ":[" with
+              | [f, c] => parseFi f == some (some gitWant) && ("[" ++ c) == rd
+              | _ => false) &&
+             (match p2.splitOn ":[" with
+              | [f, c] => parseFi f == some (some gitWant) &&
+                  (match parseChunks ("[" ++ c) with
+                   -- (a zero-length range read back may be a one-line range misread, finding F5: not judged)
+                   | some cs2 => cs2.any (fun c => c.lstart == c.lend || c.rstart == c.rend) ||
+                       sameChanges cs2 s.right s.left
+                   | none => false)
+              | _ => false)
+           | _ => false), false,
+        "ReadGitPatch of a two-file git patch (this diff, then the reverse diff) does not return each file's own chunks and names"),
       (obsField impl "patch" == "", false, "GNU patch disagrees: " ++ obsField impl "patch")]
 
 def specContext (s : S14) (impl : String) : String × Bool :=
@@ -262,7 +278,7 @@ def step (s : S14) (toks : List String) (impl : String) : S14 × String × Strin
       | .ok cs =>
         let (m, v) :=
           if k == "n" then mark (modelNormal cs) (specNormal s impl)
-          else if k == "u" then mark (modelUnified s cs) (specUnified s impl)
+          else if k == "u" then mark (modelUnified s mode cs) (specUnified s impl)
           else mark (modelContext s cs) (specContext s impl)
         (s, m, v)
     else (s, "bad-op", "bad bad-op")
